@@ -144,7 +144,7 @@ fn run_history(a: &Args, tag: &'static str, idx: u64, acc: &mut Acc) {
 
 pub fn run(a: &Args) -> Acc {
     let tag = "c02";
-    let n = a.n(3000, 60000);
+    let n = a.n(9000, 120000);
     let (lo, hi) = match (a.only, a.tag.as_deref()) {
         (Some(i), Some(t)) if t == tag => (i, i + 1),
         (Some(i), None) => (i, i + 1),
